@@ -2,10 +2,12 @@
 liveness) and its complete state graph replayed transition by transition on the real sender code (vf/props/mux.py);
 (2) connection level (see DESIGN section 6 / C05): scenario families on the real endpoints, recorded traces validated against
 RSocket.tla by TLC; design-level model checking of the same monitors in RSocketMC.tla."""
-from . import conn, families, mc, mux
+from . import conn, families, mc, mux, leasemodel
 
 
 def run(v):
     mux.check(v)
+    # frames a stream queues while its request waits for a lease must follow the request, in the order they were queued (Lease.tla)
+    leasemodel.check_acts(v, 'C05')
     mc.run_for(v, 'C05')
     conn.check(v, 'C05', families.FAMILIES['C05'])
